@@ -56,88 +56,4 @@ def GapsBelowCap : Int → List Arrival → Prop
   | _, [] => True
   | d0, a :: rest => a.dur - d0 ≤ clientMaxDTSRTCDiff ∧ GapsBelowCap a.dur rest
 
-theorem pace_now {d e : Int} (h : d ≤ e) : pace d e = .now := by
-  unfold pace handleDataPaceWaits
-  simp only [gt_iff_lt, decide_eq_true_eq]
-  rw [if_neg (by omega)]
-
-theorem pace_sleep {d e : Int} (h : e < d) (hc : d - e ≤ clientMaxDTSRTCDiff) : pace d e = .sleep (d - e) := by
-  unfold pace handleDataPaceWaits handleDataPaceDiff handleDataPaceTooBig
-  unfold clientMaxDTSRTCDiff at hc
-  simp only [gt_iff_lt, decide_eq_true_eq]
-  rw [if_pos h, if_neg (by omega)]
-
-theorem pace_tooBig {d e : Int} (hc : clientMaxDTSRTCDiff < d - e) : pace d e = .tooBig := by
-  unfold pace handleDataPaceWaits handleDataPaceDiff handleDataPaceTooBig
-  unfold clientMaxDTSRTCDiff at hc
-  simp only [gt_iff_lt, decide_eq_true_eq]
-  rw [if_pos (by omega), if_pos (by omega)]
-
-/-- the cap fires exactly when the unit is more than 10 s ahead of the clock -/
-theorem pace_tooBig_iff (d e : Int) : pace d e = .tooBig ↔ clientMaxDTSRTCDiff < d - e := by
-  constructor
-  · intro h
-    by_cases h1 : d ≤ e
-    · rw [pace_now h1] at h; cases h
-    · by_cases h2 : d - e ≤ clientMaxDTSRTCDiff
-      · rw [pace_sleep (by omega) h2] at h; cases h
-      · omega
-  · exact pace_tooBig
-
-/-- main invariant: started at a clock `t` that is not behind the previous unit's DTS (`d0 ≤ t`), a track whose
-    consecutive DTS are at most the cap apart is never stopped by the cap, whatever the scheduling delays and timer
-    overshoots; every unit is delivered at or after its DTS, deliveries are in order, and a unit that arrives early
-    is delivered exactly `over` after its DTS. -/
-theorem run_spec (as : List Arrival) : ∀ (t d0 : Int), d0 ≤ t → Clocked as → GapsBelowCap d0 as →
-    ∃ ts, run t as = some ts ∧ ts.length = as.length ∧
-      (∀ i (h : i < as.length) (h' : i < ts.length), as[i].dur ≤ ts[i]) ∧
-      (∀ x ∈ ts, t ≤ x) ∧ ts.Pairwise (· ≤ ·) := by
-  induction as with
-  | nil => intro t d0 _ _ _; exact ⟨[], rfl, rfl, by simp, by simp, List.Pairwise.nil⟩
-  | cons a rest ih =>
-    intro t d0 ht hc hg
-    have ha := hc a (List.mem_cons_self)
-    have hcr : Clocked rest := fun x hx => hc x (List.mem_cons_of_mem _ hx)
-    obtain ⟨hg1, hg2⟩ := hg
-    by_cases h1 : a.dur ≤ t + a.gap
-    · obtain ⟨ts, hr, hl, hd, hlo, hp⟩ := ih (t + a.gap) a.dur h1 hcr hg2
-      refine ⟨(t + a.gap) :: ts, ?_, by simp [hl], ?_, ?_, ?_⟩
-      · simp only [run, pace_now h1, hr, Option.map_some]
-      · intro i h h'
-        cases i with
-        | zero => simpa using h1
-        | succ j => simpa using hd j (by simpa using h) (by simpa using h')
-      · intro x hx
-        rcases List.mem_cons.mp hx with rfl | hx
-        · omega
-        · have := hlo x hx; omega
-      · exact List.Pairwise.cons (fun x hx => hlo x hx) hp
-    · have h2 : a.dur - (t + a.gap) ≤ clientMaxDTSRTCDiff := by omega
-      have h3 : a.dur ≤ t + a.gap + (a.dur - (t + a.gap)) + a.over := by omega
-      obtain ⟨ts, hr, hl, hd, hlo, hp⟩ := ih (t + a.gap + (a.dur - (t + a.gap)) + a.over) a.dur h3 hcr hg2
-      refine ⟨(t + a.gap + (a.dur - (t + a.gap)) + a.over) :: ts, ?_, by simp [hl], ?_, ?_, ?_⟩
-      · simp only [run, pace_sleep (by omega : t + a.gap < a.dur) h2, hr, Option.map_some]
-      · intro i h h'
-        cases i with
-        | zero => simpa using h3
-        | succ j => simpa using hd j (by simpa using h) (by simpa using h')
-      · intro x hx
-        rcases List.mem_cons.mp hx with rfl | hx
-        · omega
-        · have := hlo x hx; omega
-      · exact List.Pairwise.cons (fun x hx => hlo x hx) hp
-
-/-- conversely: a unit that is more than the cap ahead of the clock when it arrives ends the run, however regular
-    everything before was (this is why the T2 cases keep media time short) -/
-theorem run_cap_fires (t : Int) (a : Arrival) (rest : List Arrival)
-    (h : clientMaxDTSRTCDiff < a.dur - (t + a.gap)) : run t (a :: rest) = none := by
-  simp only [run, pace_tooBig h]
-
-/-- an ideal clock (no scheduling delay beyond the media itself, exact timers) delivers every unit that is ahead of
-    the clock exactly at its DTS -/
-theorem run_exact (t : Int) (a : Arrival) (h : t + a.gap < a.dur) (hc : a.dur - (t + a.gap) ≤ clientMaxDTSRTCDiff)
-    (ho : a.over = 0) : run t [a] = some [a.dur] := by
-  simp only [run, pace_sleep h hc, ho, Option.map_some]
-  congr 2; omega
-
 end Hls.Client.Pacing
